@@ -179,6 +179,14 @@ def stepL1 (f : List String) : Option String :=
     let au ← if au == "1" then some true else if au == "0" then some false else none
     pure (runSy ents (← parseRun rn) (← qu.toNat?) au (← parseNats la))
   | ["la", ops] => runLa (splitList ops)
+  | ["rs", es, rn, _hid, _un, _sc] => do
+    -- Scheduler.run after a restart: while a worker is Unknown and a lock is stale nothing is
+    -- scheduled (L3: phase `recovering` precedes `scheduling`); when the pool has probed everything
+    -- fixStaleLocks unlocks the stale locks of its last iteration
+    let ents ← (splitList es).mapM parseEnt
+    let running ← parseNats rn
+    let unl := sortNat (fixStaleLocks true ents (fun u => running.contains u))
+    pure ("early=-;unl=" ++ joinOr (unl.map (fun u => s!"qu{u}")))
   | ["fs", es, rn, hid, au, un, sc] => do
     let ents ← (splitList es).mapM parseEnt
     pure (runFs ents (← parseNats rn) (← parseNats hid) (← parseBool' au) (← parseUnalloc un) (← parseScript sc))
@@ -206,7 +214,9 @@ inductive PPhase where
 structure PSt where
   pool : Pool
   clock : Nat
-  pend : List (Nat × Nat)
+  /-- start commands whose completion closure has not run: worker, uuid, and whether a later
+  `startContainer` of the same uuid on the same worker has replaced its runner in `starting` -/
+  pend : List (Nat × Nat × Bool)
   probes : List (Nat × PPhase)
   threshold : Nat
   out : List String
@@ -274,13 +284,15 @@ def poolOp (s : PSt) (op : String) : Option (List PSt) := do
     else cands.mapM (fun wid => do
       let p ← s.pool.startContainer t u wid
       let w ← s.pool.find wid
-      pure { s with pool := p, pend := s.pend ++ [(wid, u)],
+      let pend := s.pend.map (fun q => if q.1 == wid && q.2.1 == u then (q.1, q.2.1, true) else q)
+      pure { s with pool := p, pend := pend ++ [(wid, u, false)],
                     out := s.out ++ [s!"w{wid}{showWS w.state}{showIB w.idleB}"] })
   | "sd", [u] =>
     let u ← u.toNat?
-    match s.pend.find? (fun q => q.2 == u) with
+    match s.pend.find? (fun q => q.2.1 == u) with
     | some q =>
-      pure [{ s with pool := s.pool.startDone q.1 u now, pend := s.pend.erase q }]
+      -- a superseded closure finds another runner in `starting` and returns
+      pure [{ s with pool := if q.2.2 then s.pool else s.pool.startDone q.1 u now, pend := s.pend.erase q }]
     | none => pure [s]
   | "kl", [u] =>
     let u ← u.toNat?
